@@ -154,8 +154,10 @@ def read_while_writer_alive(path, hist, records, k):
             rd.close()
     except Exception as e:
         verdict = ('raise', type(e).__name__)
-    with open(path, newline='') as fh:
-        image = fh.read()
+    image = ''
+    if os.path.exists(path):
+        with open(path, newline='') as fh:
+            image = fh.read()
     try:
         g._file.close()
     except Exception:
